@@ -129,3 +129,49 @@ def c17_refparse(tier, rng):
                              "required": "every number used in a reference id of IsoQuant's own shape is excluded"})
                 return {"cases": cases, "bound": "n<=60", "violations": viol}
     return {"cases": cases, "bound": "n in 0..60, 8 chromosome shapes", "violations": viol, "samples": [{"chr": chrs[3]}]}
+
+
+# ---- which models are added to the reference transcripts in the extended annotation ------------------------------------------------------------
+import ast as _ast
+import copy as _copy
+from pyvc import front as _front
+from pyvc.api import enum_from_repo as _enum_from_repo
+_enum_from_repo("src/gene_info.py", "TranscriptModelType")
+
+
+def _novel_storage_extract(fdef):
+    """construct_models_in_parallel: the loop that copies models of one locus into novel_model_storage (the list later appended to ALL
+    reference transcripts by create_extended_storage), as a function of the locus' model storage; everything around it is dropped"""
+    loop = None
+    for n in _ast.walk(fdef):
+        if isinstance(n, _ast.For) and _ast.unparse(n.iter) == "model_constructor.transcript_model_storage" and \
+                any(isinstance(c, _ast.Call) and _ast.unparse(c.func) == "novel_model_storage.append" for c in _ast.walk(n)):
+            loop = n
+    if loop is None:
+        raise _front.Missing("loop filling novel_model_storage not found in construct_models_in_parallel")
+    args = _ast.arguments(posonlyargs=[], args=[_ast.arg(arg=a) for a in ("model_constructor", "novel_model_storage")],
+                          kwonlyargs=[], kw_defaults=[], defaults=[])
+    body = [_copy.deepcopy(loop), _ast.Return(value=_ast.Name(id="novel_model_storage", ctx=_ast.Load()))]
+    return _ast.fix_missing_locations(_ast.FunctionDef(name="construct_models_in_parallel", args=args, body=body, decorator_list=[],
+                                                       lineno=loop.lineno, col_offset=0))
+
+
+record("ModelX", {"transcript_id": "str", "gene_id": "str", "source": "str", "transcript_type": "enum:TranscriptModelType"})
+record("ModelConstructorX", {"transcript_model_storage": "list[rec:ModelX]"})
+contract("src/dataset_processor.py:construct_models_in_parallel#novel_storage",
+         {"model_constructor": "rec:ModelConstructorX", "novel_model_storage": "list[rec:ModelX]"}, returns="list[rec:ModelX]",
+         props=["C17", "C03"], extract=_novel_storage_extract, native=False, modifies=["novel_model_storage"],
+         # the extended annotation = all reference transcripts + this list: a reference (known) model must never be in it, whatever its
+         # source column says (an annotation produced by IsoQuant itself has source IsoQuant), and every other model must be
+         ensures=["all(result[j].transcript_type != TranscriptModelType.known for j in range(len(old(novel_model_storage)), len(result)))",
+                  "result[:len(old(novel_model_storage))] == old(novel_model_storage)",
+                  "all(model_constructor.transcript_model_storage[k].transcript_type == TranscriptModelType.known or "
+                  "any(result[j] == model_constructor.transcript_model_storage[k] for j in range(len(old(novel_model_storage)), len(result))) "
+                  "for k in range(len(model_constructor.transcript_model_storage)))"],
+         loops={0: {"inv": ["len(novel_model_storage) >= len(old(novel_model_storage))",
+                            "novel_model_storage[:len(old(novel_model_storage))] == old(novel_model_storage)",
+                            "all(novel_model_storage[j].transcript_type != TranscriptModelType.known for j in range(len(old(novel_model_storage)), len(novel_model_storage)))",
+                            "all(model_constructor.transcript_model_storage[k].transcript_type == TranscriptModelType.known or "
+                            "any(novel_model_storage[j] == model_constructor.transcript_model_storage[k] for j in range(len(old(novel_model_storage)), len(novel_model_storage))) "
+                            "for k in range(_k0))"]}},
+         canary="len(result) == len(old(novel_model_storage))")
